@@ -29,6 +29,9 @@ var (
 
 var pkgCache = map[string]*pkgInfo{}
 
+// type errors reported while checking a package (tasks that need complete type information consult this)
+var typeErrors = map[*pkgInfo][]string{}
+
 func loadPkg(dir string) (*pkgInfo, error) {
 	if p, ok := pkgCache[dir]; ok {
 		return p, nil
@@ -61,9 +64,12 @@ func loadPkgUncached(dir string) (*pkgInfo, error) {
 		}
 		info := &types.Info{Types: map[ast.Expr]types.TypeAndValue{}, Defs: map[*ast.Ident]types.Object{},
 			Uses: map[*ast.Ident]types.Object{}, Selections: map[*ast.SelectorExpr]*types.Selection{}, Implicits: map[ast.Node]types.Object{}}
-		conf := types.Config{Importer: gImp, Error: func(error) {}}
+		var terrs []string
+		conf := types.Config{Importer: gImp, Error: func(e error) { terrs = append(terrs, e.Error()) }}
 		tp, _ := conf.Check(filepath.Base(dir), fset, files, info)
-		return &pkgInfo{fset, files, info, tp}, nil
+		pi := &pkgInfo{fset, files, info, tp}
+		typeErrors[pi] = terrs
+		return pi, nil
 	}
 	return nil, fmt.Errorf("no package in %s", dir)
 }
